@@ -2,7 +2,7 @@
 import itertools
 
 import kproto
-from val import T, dumps, some
+from val import T, dumps
 from props.common import fp, pm
 
 SLICE = "ClientState.update_metadata / clear_metadata / find_broker, KafkaClient.fetch_metadata (bootstrap iteration), request grouping by leader host"
